@@ -322,22 +322,22 @@ def p_roundtrip(cfg):
         kw["overviews"] = ext
         kw.pop("overview_levels", None)
     work = None
-    with warnings.catch_warnings():
-        warnings.simplefilter("ignore")
-        if cfg.get("dest", "mem") == "mem":
-            buf = R.to_cog(xx, **kw)
-            tiles = tiff_tiles(buf)
-            opener = lambda **o: rasterio.io.MemoryFile(buf).open(**o)
-        else:
-            work = tempfile.mkdtemp(prefix="verif-c15-")
-            path = os.path.join(work, "out.tif")
-            ret = R.write_cog(xx, path, **kw)
-            if str(ret) != path:
-                return False, f"write_cog returned {ret!r}"
-            tiles = tiff_tiles(path)
-            opener = lambda **o: rasterio.open(path, **o)
     msgs = []
     try:
+        with warnings.catch_warnings():
+            warnings.simplefilter("ignore")
+            if cfg.get("dest", "mem") == "mem":
+                buf = R.to_cog(xx, **kw)
+                tiles = tiff_tiles(buf)
+                opener = lambda **o: rasterio.io.MemoryFile(buf).open(**o)
+            else:
+                work = tempfile.mkdtemp(prefix="verif-c15-")
+                path = os.path.join(work, "out.tif")
+                ret = R.write_cog(xx, path, **kw)
+                if str(ret) != path:
+                    return False, f"write_cog returned {ret!r}"
+                tiles = tiff_tiles(path)
+                opener = lambda **o: rasterio.open(path, **o)
         with opener() as f:
             r = read_ds(f)
         if r["count"] != bands.shape[0] or r["shape"] != (H, W) or r["dtype"] != cfg["dtype"]:
